@@ -299,13 +299,25 @@ func corrPhase(rep *report, seed uint64, histories int, casesPath string) {
 	if err != nil {
 		panic(err)
 	}
-	defer f.Close()
 	bw := bufio.NewWriter(f)
-	defer bw.Flush()
+	written, steps := 0, 0
+	defer func() {
+		// END marker: number of histories and of steps written; the driver refuses a file without it
+		fmt.Fprintf(bw, "END %d %d\n", written, steps)
+		must(bw.Flush(), "cases flush")
+		must(f.Close(), "cases close")
+		rep.counters["corr_histories_written"] = written
+		rep.counters["corr_steps_written"] = steps
+	}()
+	put := func(line string) {
+		_, err := bw.WriteString(line + "\n")
+		must(err, "cases write")
+		written++
+		steps += len(strings.Fields(line))
+	}
 	for k := 0; k < 12; k++ {
 		if line := hintSiteHistory(rep, k%2 == 1, k); line != "" {
-			bw.WriteString(line)
-			bw.WriteByte('\n')
+			put(line)
 			rep.counters["corr_histories"]++
 			if k < 2 {
 				rep.samples = append(rep.samples, "corr hint-site history: "+line)
@@ -318,8 +330,7 @@ func corrPhase(rep *report, seed uint64, histories int, casesPath string) {
 		if diffAt > 0 {
 			corrHistory(rep, newRng(seed^(uint64(h+1)*0xA24BAED4963EE407)), h, diffAt)
 		}
-		bw.WriteString(line)
-		bw.WriteByte('\n')
+		put(line)
 		rep.counters["corr_histories"]++
 		rep.counters["corr_steps"] += stats[0]
 		rep.counters["corr_hint_set_and_cleared"] += stats[1]
